@@ -34,6 +34,12 @@ def split(args: Sequence[str]) -> tuple[Sequence[str], Sequence[str]]:
         if a in ["-m", "--module"]:
             i = min(i + 1, len(args) - 1)
             break
+        elif a.startswith("--module=") or (a.startswith("-m") and not a.startswith("--")):
+            # module given in the same arg, eg: --module=pytest or -mpytest
+            break
+        elif (a.startswith("--") and "=" in a) or (a.startswith("-") and not a.startswith("--") and len(a) > 2):
+            # flag with its value in the same arg, eg: --db_path=databases/ or -ddatabases/
+            in_flag = False
         elif a.startswith("-"):
             in_flag = True
         elif not in_flag:
